@@ -2,7 +2,8 @@
    ExtrOcamlBasic only: Z, positive and nat stay Coq's inductives. *)
 From Coq Require Extraction.
 From Coq Require Import ExtrOcamlBasic.
-From LZ4V Require Import GoT GenXXHBody GenDecodeBody.
+From LZ4V Require Import GoT GenXXHBody GenDecodeBody GenCompressBody.
 Set Extraction Output Directory ".".
 Recursive Extraction Library GenXXHBody.
 Recursive Extraction Library GenDecodeBody.
+Recursive Extraction Library GenCompressBody.
